@@ -434,7 +434,7 @@ func c09sGen(rt *rapid.T) c09sCase {
 }
 
 func TestVerif_C09_shedder(t *testing.T) {
-	kit.Run(t, "C09", "shedder-rules", kit.Opts{Quick: 20000, Thorough: 640000}, c09sGen,
+	kit.Run(t, "C09", "shedder-rules", kit.Opts{Quick: 20000, Thorough: 480000}, c09sGen,
 		func(c c09sCase) kit.Verdict { return c09sInterp(t, c) })
 }
 
